@@ -221,6 +221,62 @@ fn body(space: Space, build_kinds: &'static [GraphKind], opts: Vec<Opts>) -> imp
   }
 }
 
+/// Graphs that carry fast-check modules: a generated registry package (and its
+/// dependency package) after `build_fast_check_type_graph`.
+fn body_fast_check(slots: usize) -> impl Fn(&Ch) -> Run + Sync + Send {
+  move |ch: &Ch| {
+    let mut run = Run::default();
+    let mut g = crate::fcgen::gen_package(ch, slots);
+    // an import that only function bodies use: fast check drops it, so the
+    // failure behind it belongs to the plain walk only
+    let private_import = ch.choose("body_only_import", 4);
+    let extra = match private_import {
+      1 => "import { gone } from \"./gone.ts\";\nfunction usesGone() { return gone; }\n",
+      2 => "import { nowhere } from \"unmapped-bare-specifier\";\nfunction usesNowhere() { return nowhere; }\n",
+      3 => "async function lazy() { return await import(\"./gone_dynamically.ts\"); }\n",
+      _ => "",
+    };
+    g.pkg.files[0].1 = format!("{extra}{}", g.pkg.files[0].1);
+    let dep_is_root = ch.choose("root_imports_dependency_package_too", 2) == 1;
+    let Some(r) = crate::fc::fast_check_rooted(&[g.pkg.clone(), g.dep.clone()], if dep_is_root { 2 } else { 1 }, None, ch) else {
+      run.violate("build-did-not-finish", "deadlock", json!({}));
+      return run;
+    };
+    let graph = &r.graph;
+    let view = SlotView::new(graph);
+    let with_fc = r.modules.values().filter(|(_, s)| matches!(s, crate::fc::FcSlot::Module { .. })).count();
+    let mut root_sets: Vec<Vec<ModuleSpecifier>> = vec![graph.roots.iter().cloned().collect()];
+    for (_, e) in &g.pkg.exports {
+      root_sets.push(vec![url(&g.pkg.url(e.trim_start_matches('.')))]);
+    }
+    root_sets.push(vec![url(&g.dep.url("/mod.ts"))]);
+    root_sets.push(vec![url(&g.pkg.url("/barrel.ts")), url(&g.pkg.url("/c.ts"))]);
+    for roots in &root_sets {
+      for o in all_opts() {
+        let case = || {
+          json!({"package": g.pkg.files.iter().map(|(p, s)| json!([p, s])).collect::<Vec<_>>(), "exports": g.pkg.exports, "workspace_member": g.pkg.workspace,
+            "modules_with_fast_check_output": with_fc,
+            "walk_roots": roots.iter().map(|r| r.as_str()).collect::<Vec<_>>(), "options": format!("{o:?}")})
+        };
+        let skips = matches!(o.check_js, CheckJs::True);
+        run.evals += check_walk(graph, &view, roots, &o, &mut run, &case, skips);
+      }
+    }
+    // the fast-check walk must actually differ from the plain one somewhere, or the part is vacuous
+    let plain: BTreeSet<ModuleSpecifier> = graph.walk(graph.roots.iter(), Opts { kind: GraphKind::TypesOnly, follow_dynamic: true, check_js: CheckJs::True, prefer_fast_check: false }.walk_options()).map(|(s, _)| s.clone()).collect();
+    let fc: BTreeSet<ModuleSpecifier> = graph.walk(graph.roots.iter(), Opts { kind: GraphKind::TypesOnly, follow_dynamic: true, check_js: CheckJs::True, prefer_fast_check: true }.walk_options()).map(|(s, _)| s.clone()).collect();
+    run.count("graphs_with_fast_check_modules", (with_fc > 0) as u64);
+    run.count("graphs_where_the_fast_check_walk_visits_fewer_modules", (fc.len() < plain.len()) as u64);
+    run.state_key = hash_of(&format!("{:?}{:?}{}{}", g.pkg.files, g.pkg.exports, g.pkg.workspace, dep_is_root));
+    run.nontrivial = with_fc > 0;
+    run.outcome_key = hash_of(&(plain.len(), fc.len(), with_fc));
+    if ch.describe() {
+      run.sample = Some(json!({"package": g.pkg.files.iter().map(|(p, s)| json!([p, s])).collect::<Vec<_>>(), "modules_with_fast_check_output": with_fc, "plain_types_walk": plain.len(), "fast_check_walk": fc.len()}));
+    }
+    run
+  }
+}
+
 pub fn prop(tier: Tier) -> Prop {
   static ALL_ONLY: [GraphKind; 1] = [GraphKind::All];
   static ALL_KINDS: [GraphKind; 3] = [GraphKind::All, GraphKind::CodeOnly, GraphKind::TypesOnly];
@@ -247,6 +303,15 @@ pub fn prop(tier: Tier) -> Prop {
     ],
   };
   let mut parts = parts;
+  parts.push(Part {
+    name: "fast-check",
+    body: Box::new(body_fast_check(2)),
+    modes: match tier {
+      Tier::Quick => vec![Mode::Deviations(1), Mode::Deviations(2)],
+      Tier::Thorough => vec![Mode::Deviations(2), Mode::Deviations(3)],
+    },
+    what: "graphs with fast-check modules (generated registry / workspace package + dependency package after build_fast_check_type_graph): all 36 option sets incl. prefer_fast_check_graph from the graph roots, every entrypoint, the dependency package and an inner pair; skips for check_js=True",
+  });
   match tier {
     Tier::Quick => parts.push(Part {
       name: "core",
@@ -267,7 +332,7 @@ pub fn prop(tier: Tier) -> Prop {
     assumptions: vec![
       "reference reachability is computed from Module::dependencies()/dependencies_prefer_fast_check(), maybe_types_dependency, redirects and imports as exposed by the public API; the slot table is read from the serialised graph".into(),
       "errors are compared as keys (slot:<specifier>, code-res/type-res:<referrer range>) - duplicates of one key collapse".into(),
-      "generic worlds carry no fast-check modules (prefer_fast_check then equals the plain walk); fast-check graphs are walked in the C12 harness".into(),
+      "generic worlds carry no fast-check modules (prefer_fast_check then equals the plain walk); graphs with fast-check modules are walked in the part fast-check (packages of the C09-C11 generator, 2 declaration slots)".into(),
     ],
     parts,
     termination_property: false,
